@@ -46,3 +46,4 @@ Check (C05_substores_roundtrip : forall s ow,
 Print Assumptions C05_substores_roundtrip.
 Print Assumptions C05_documents_one_by_one.
 Print Assumptions C05_restriction_wellformed.
+Print Assumptions C05_export_keeps_flags.
